@@ -154,6 +154,11 @@ def ringRound (P : Nat) (proc : Int) (st : List Bufs) : List Bufs :=
     (st.getD p default).set (Gen.ringInBuf proc)
       ((st.getD (Gen.ringRecvFrom p P).toNat default).get (Gen.ringOutBuf proc))
 
+/-- the buffers of all ranks after `k` ring rounds, starting with the own message in `buffer[0]` -/
+def ringState (P : Nat) (msgs : List Msg) : Nat → List Bufs
+  | 0 => msgs.map fun m => (⟨m, default⟩ : Bufs)
+  | k + 1 => ringRound P ((k + 1 : Nat) : Int) (ringState P msgs k)
+
 /-- `for(int proc=1; proc<procs; proc++)` on all ranks at once: buffers and maps of all ranks -/
 def ringLoop (P : Nat) (locals : List Local) : Nat → Int → List Bufs → List RMap → List RMap
   | 0, _, _, maps => maps
@@ -188,6 +193,16 @@ def netOK (sys : System) (arrivals : Nat → List Nat) : Bool :=
   (List.range sys.P).all fun p =>
     !isRing sys p && (nbIds (sys.rank p) p).all (fun q => decide (q < sys.P)) &&
     (arrivals p).isPerm (senders sys p) && (senders sys p).length == (nbIds (sys.rank p) p).length
+
+/-- consistent hints: whoever `p` names is a rank of the communicator and names `p` -/
+def SymHints (sys : System) : Prop :=
+  ∀ p, p < sys.P → ∀ q, q ∈ nbIds (sys.rank p) p → q < sys.P ∧ p ∈ nbIds (sys.rank q) q
+
+/-- no rank has neighbour hints (naming only oneself counts as none) -/
+def AllRing (sys : System) : Prop := ∀ p, p < sys.P → nbIds (sys.rank p) p = []
+
+/-- every rank has neighbour hints -/
+def AllNb (sys : System) : Prop := ∀ p, p < sys.P → nbIds (sys.rank p) p ≠ []
 
 /-- the map of rank `p` after its own message -/
 def selfMap (l : Local) (incl : Bool) (p : Nat) : RMap :=
@@ -236,6 +251,13 @@ def RankW.obj (r : RankW) (i : Nat) : IdxObj := if i = 0 then r.o0 else if i = 1
 def RankW.setObj (r : RankW) (i : Nat) (o : IdxObj) : RankW :=
   if i = 0 then { r with o0 := o } else if i = 1 then { r with o1 := o } else { r with o2 := o }
 
+/-- object ids 2, 3, … all denote the third object -/
+def objId (i : Nat) : Nat := if i = 0 then 0 else if i = 1 then 1 else 2
+def sameObj (i j : Nat) : Bool := objId i == objId j
+
+/-- object `o` is the rank's source or target index set -/
+def RankW.refers (r : RankW) (o : Nat) : Bool := sameObj r.srcObj o || sameObj r.tgtObj o
+
 /-- what the rank hands to `buildRemote` -/
 def RankW.data (r : RankW) : RankData :=
   { src := (r.obj r.srcObj).pairs, tgt := (r.obj r.tgtObj).pairs, two := r.srcObj != r.tgtObj,
@@ -275,6 +297,14 @@ inductive Ev where
   /-- `setNeighbours(hints)` on rank `p` -/
   | setNb (p : Nat) (hints : List Nat)
 
+/-- events that keep `includeSelf` and (unless the object is re-initialised) the hints: everything except
+    `setIncludeSelf` and `setNeighbours`, which change the outcome of the next real build without making `rebuild`
+    rebuild -/
+def Ev.core : Ev → Bool
+  | .setIncl _ _ => false
+  | .setNb _ _ => false
+  | _ => true
+
 def World.modify (w : World) (p : Nat) (f : RankW → RankW) : World :=
   w.mapIdx fun i r => if i = p then f r else r
 
@@ -294,6 +324,10 @@ def World.step (w : World) : Ev → Option World
   | .setSets p s t hints => some (w.modify p fun r => { r.free with srcObj := s, tgtObj := t, hints := hints })
   | .setIncl p b => some (w.modify p fun r => { r with incl := b })
   | .setNb p hints => some (w.modify p fun r => { r with hints := hints })
+
+/-- a sequence of resizes `(rank, object, new contents)` -/
+def World.resizes (w : World) (rs : List (Nat × Nat × List Pair)) : World :=
+  rs.foldl (fun w e => w.modify e.1 fun r => r.setObj e.2.1 { pairs := e.2.2, seq := (r.obj e.2.1).seq + 1 }) w
 
 def World.run (w : World) : List Ev → Option World
   | [] => some w
